@@ -41,6 +41,8 @@ func runC09(c *Ctx) {
 		"append(s, b...) appends exactly the bytes of b",
 	}
 	w := prove.NewWorld(p)
+	wSetUnits(c, llmnrPkg, [2]string{"", "EncodeQuestion"}, [2]string{"", "DecodeQuestion"}, [2]string{"", "EncodeResourceRecord"}, [2]string{"", "DecodeResourceRecord"},
+		[2]string{"Message", "Encode"}, [2]string{"", "DecodeMessage"}, [2]string{"", "EncodeDomainName"}, [2]string{"", "DecodeDomainName"}, [2]string{"", "ValidateDomainName"})
 
 	encQ := wEncoder(c, w, llmnrPkg, "", "EncodeQuestion")
 	decQ := wDecoder(c, w, llmnrPkg, "", "DecodeQuestion")
@@ -117,7 +119,7 @@ func runC09(c *Ctx) {
 	r.Extra["functions_analysed"] = []string{"EncodeQuestion", "DecodeQuestion", "EncodeResourceRecord", "DecodeResourceRecord", "Message.Encode", "DecodeMessage", "EncodeDomainName", "DecodeDomainName", "ValidateDomainName"}
 	r.Extra["codec_pairs"] = 4
 	r.Extra["sections_table"] = []string{"QDCount↔Questions (EncodeQuestion/DecodeQuestion)", "ANCount↔Answers", "NSCount↔Authority", "ARCount↔Additional (EncodeResourceRecord/DecodeResourceRecord)"}
-	r.Extra["idioms"] = "encoders: append chains, AppendUintN, scratch buffers re-used across PutUintN/append (flow-sensitive), fixed-offset writes into a make, by-value subjects, range loops, one level of in-module `put` helpers; decoders: UintN(data[off:]) / data[i] / data[a:b] / copy, (value, newOffset, err) helpers, loop φ cursors, cursors captured by closures, per-section closures, one level of in-module `get` helpers"
+	r.Extra["idioms"] = "encoders: append chains, AppendUintN, scratch buffers re-used across PutUintN/append (flow-sensitive), fixed-offset writes into a make, by-value subjects, range loops, in-module `put` helpers and section helpers func(buf, records) ([]byte, error) analysed at their call sites, loops over constant tables of fields/sections (unrolled), one run-time-sized buffer filled at computed offsets, slices.Concat; decoders: UintN(data[off:]) / data[i] / data[a:b] / copy / bytes.Clone, (value, newOffset, err) helpers (codec units compared as a whole, other helpers — including loops over a section — analysed at their call sites), loop φ cursors (header- or latch-tested, range-over-int), cursors captured by closures, per-section closures, in-module `get` helpers"
 }
 
 // c09Length: the length field that frames RData.
